@@ -34,7 +34,7 @@ def cfg(nr, nc, *, cat, trainmax=3, rset='R12', thin_r=1, thin_1=1, thin_t=1, pa
         trace=False):
     s = '\n'.join(['CONSTANTS', f'  NR = {nr}', f'  NC = {nc}', '  MaxObj = 1', '  MaxRows = 9', '  MaxPats = 9',
                    '  Depth = 0', '  NanPairs <- NanPairsNone', '  ArgLevel = 2', '  EmitMod = 1', '  Ops <- NoOps',
-                   f'  Catalogue <- {cat}', f'  TrainMax = {trainmax}', f'  RSet <- {rset}', f'  ThinR = {thin_r}',
+                   f'  Catalogue <- {cat}', f'  InterpOnly = {"TRUE" if init == "IInit" else "FALSE"}', f'  TrainMax = {trainmax}', f'  RSet <- {rset}', f'  ThinR = {thin_r}',
                    f'  Thin1 = {thin_1}', f'  ThinT = {thin_t}', f'  PatSels <- {pats}', f'  CompMax = {compmax}', f'  LinGrid = {lingrid}']) + '\n'
     if trace:
         return s + 'SPECIFICATION TSpec\nCHECK_DEADLOCK FALSE\n'
@@ -91,16 +91,18 @@ def run_fit(ctx, name, nr, nc, opt_every=0, **kw):
         ctx.nontriv(('f', name) + k)
     ctx.traces += summ['pairs']
     ctx.extra.setdefault('fit_runs', {})[name] = summ
-    if summ['pairs'] == 0 or (summ['exact_directions_checked'] == 0 and '1' in kw.get('rset', 'R12')):
+    if summ['pairs'] == 0 or (summ['exact_directions_checked'] == 0 and '1' in kw.get('rset', 'R12') and kw.get('init') != 'IInit'):
         raise MachineryError(f'{name}: vacuous (no competitor pairs or no exact direction compared)')
     return summ
 
 
 def _lin_job(args):
-    lines, nc = args
+    base, lines, nc = args
     out = []
-    for line in lines:
-        out += FT.check_lin(json.loads(line), nc)
+    for j, line in enumerate(lines):
+        i = base + j
+        # basis storage dtype x integer / fractional weights rotate over the emitted states
+        out += FT.check_lin(json.loads(line), nc, dtype=FT.DTYPES[i % 4], scale=(1.0 if (i // 4) % 2 == 0 else 0.25))
     return out, len(lines)
 
 
@@ -111,7 +113,7 @@ def run_lin(ctx, name, nr, nc, **kw):
     ctx.sample({'run': name, 'lin': next(r.iter_emitted())})
     n = 0
     with mp.Pool(NPROC) as pool:
-        for out, cnt in pool.imap_unordered(_lin_job, ((chunk, nc) for chunk in r.iter_lines(300))):
+        for out, cnt in pool.imap_unordered(_lin_job, ((k * 300, chunk, nc) for k, chunk in enumerate(r.iter_lines(300)))):
             n += cnt
             ctx.count(cnt * 12)
             for key, what, case in out:
@@ -209,11 +211,16 @@ def run(ctx):
         run_fit(ctx, 'f_3', 3, 3, cat='Cat3', trainmax=3, rset='R123', thin_1=2, thin_t=401, pats='Pat3', opt_every=25)
         run_fit(ctx, 'f_4_r1', 3, 4, cat='Cat4', trainmax=2, rset='R1', thin_r=1, thin_1=29, pats='Pat4', opt_every=25)
         run_fit(ctx, 'f_4_r23', 3, 4, cat='Cat4', trainmax=2, rset='R23', thin_r=13, thin_t=499, pats='Pat4', opt_every=25)
+        run_fit(ctx, 'f_interp', 3, 4, cat='CatI4', init='IInit', trainmax=2, rset='R123', thin_r=13, thin_1=1, thin_t=97,
+                pats='Pat4')
         run_lin(ctx, 'lin_3', 3, 3, cat='Cat3', lingrid=2)
         run_lin(ctx, 'lin_4', 3, 4, cat='Cat4', lingrid=1)
     else:
         run_fit(ctx, 'f_3', 3, 3, cat='Cat3', trainmax=3, rset='R12', thin_r=1, thin_1=5, thin_t=61, pats='Pat3', opt_every=10)
         run_fit(ctx, 'f_4', 3, 4, cat='Cat4', trainmax=2, rset='R12', thin_r=13, thin_1=5, thin_t=61, pats='Pat4', opt_every=10)
+        # paths of 4-5 RDMs for selection / interpolation models: competitors over ALL segments
+        run_fit(ctx, 'f_interp', 3, 4, cat='CatI4', init='IInit', trainmax=2, rset='R12', thin_r=13, thin_1=3, thin_t=61,
+                pats='Pat4Few')
         run_lin(ctx, 'lin_4', 3, 4, cat='Cat4K3', lingrid=1)
     ctx.exhaustive = thorough
     run_traces(ctx, 600 if thorough else 240)
